@@ -1,11 +1,11 @@
 SPECIFICATION Spec
 CONSTANTS
-  NMax = 3
-  L0S = {6,8}
+  NMax = 1
+  L0S = {6}
   LShift = 4
-  CS = {1,2}
+  CS = {1}
   LMinAll = 0
-  TS = {1,2,3}
+  TS = {1}
   ChemPool = 3
   ChemLayout = "rows_are_layers"
   UnitAt = "return"
@@ -13,7 +13,7 @@ CONSTANTS
   EvalEffect = "readonly"
   ShareEffect = "read_scales_temperature"
   RADS = {8}
-  GMS = {64,128}
+  GMS = {64}
   Slicing = "layer"
   Export = FALSE
 PROPERTY ReadsAreRepeatable
